@@ -17,6 +17,8 @@ def sig(e):
         s["perturbed"] = e.get("perturbed")
     if e.get("k") == "tree":
         s["parse_ok"] = e.get("parse_ok")
+    if e.get("k") == "probe":
+        s["name"] = e.get("name")
     return s
 
 
@@ -140,8 +142,9 @@ def run(tier):
               (not missing, "error codes never observed: %r" % missing),
               (st["own_accepted"] >= 500 and st["own_with_created_coins"] >= 100 and st["own_with_hints"] >= 20 and st["own_with_agg_sigs"] >= 50, "owned projection stream too thin"),
               (st["own_fingerprint_kept"] >= 30 and st["own_fingerprint_dropped"] >= 30, "fingerprint rule not exercised in both directions")]
-    # a violation explains itself; the guards only protect a run that found nothing
-    if not chk.violations:
+    # a violation explains itself; the guards protect a run that found nothing (the representation probe is a
+    # fixed input and says nothing about the streams)
+    if not [v for v in chk.violations if v[0].get("event") != "probe"]:
         for ok, msg in guards:
             if not ok:
                 raise ToolError("X03 vacuity guard: %s (%r)" % (msg, st))
